@@ -135,14 +135,22 @@ Definition terms_monotone (g : lgstate) : Prop :=
     e_term ei <= e_term ej /\ e_idx ei = i.
 
 (* ---------------------------------------------------------------- flat encoding (component 101) *)
-(* as component 1, plus:  7 i data (propose a command) | 8 i j next last | 9 i j | 10 k
-   output per label: 0 | 1, per node: role term vterm vcand+1 lastIndex nlog (idx term ty data)*, number of leaders, number of requests *)
+(* as component 1 (label 6, an injected AppendEntries, is not enabled here), plus:
+   7 i data (propose a command) | 8 i j next last | 9 i j | 10 k
+   output per label: 0 | 1, per node: role term vterm vcand+1 lastIndex nlog (idx term ty data)*, number of leaders,
+   number of requests, the newest request: term prevIdx prevTerm commit n (idx term)* (absent when there is none) *)
 Definition enc_lnode (n : gnode) : list N :=
   let l := sorted_log (log_of n) in
   enc_gnode n ++ N.of_nat (length l) :: flat_map (fun e => [e_idx e; e_term e; e_ty e; e_data e]) l.
 
+Definition enc_amsg (m : amsg) : list N :=
+  let a := am_req m in
+  [aq_term a; aq_prevIdx a; aq_prevTerm a; aq_commit a; N.of_nat (length (aq_entries a))]
+  ++ flat_map (fun e => [e_idx e; e_term e]) (aq_entries a).
+
 Definition enc_lgstate (g : lgstate) : list N :=
-  flat_map enc_lnode (g_nodes (lg_g g)) ++ [N.of_nat (length (g_leaders (lg_g g))); N.of_nat (length (lg_msgs g))].
+  flat_map enc_lnode (g_nodes (lg_g g)) ++ [N.of_nat (length (g_leaders (lg_g g))); N.of_nat (length (lg_msgs g))]
+  ++ match rev (lg_msgs g) with m :: _ => enc_amsg m | [] => [] end.
 
 Definition dec_llabel (l : list N) : option (llabel * list N) :=
   match l with
@@ -150,7 +158,6 @@ Definition dec_llabel (l : list N) : option (llabel * list N) :=
   | 8 :: i :: j :: next :: last :: r => Some (LSend i j next last, r)
   | 9 :: i :: j :: r => Some (LHeartbeat i j, r)
   | 10 :: k :: r => Some (LDeliver (N.to_nat k) 0 [], r)
-  | 11 :: j :: r => Some (LElect (GInput j NSnapshot 0 []), r)
   | _ => match dec_glabel l with Some (gl, r) => Some (LElect gl, r) | None => None end
   end.
 
